@@ -269,7 +269,7 @@ class SimFS:
                 buf = io.BufferedReader(raw, bufsize)
             if binary:
                 return buf
-            if encoding is None:
+            if encoding is None or encoding == 'locale':      # os.fdopen passes io.text_encoding(None) == 'locale'
                 encoding = self.locale
                 self.bump('locale_default_encoding_used')
             text = _REAL_TEXTIOWRAPPER(buf, encoding, errors, newline, buffering == 1)
@@ -306,7 +306,7 @@ class SimFS:
                 buf = io.BufferedReader(raw, bufsize)
             if binary:
                 return buf
-            if encoding is None:
+            if encoding is None or encoding == 'locale':      # os.fdopen passes io.text_encoding(None) == 'locale'
                 encoding = self.locale
                 self.bump('locale_default_encoding_used')
             text = _REAL_TEXTIOWRAPPER(buf, encoding, errors, newline, buffering == 1)
